@@ -1181,8 +1181,22 @@ static IMPORTED_DLL* pe_parse_imports(PE* pe)
             pe, imports, dll_name, &num_function_imports);
 
         if (functions != NULL)
-        {
           imported_dll->name = yr_strdup(dll_name);
+
+        if (functions != NULL && imported_dll->name == NULL)
+        {
+          // Not enough memory for the DLL name, discard the functions.
+          while (functions != NULL)
+          {
+            IMPORT_FUNCTION* next_function = functions->next;
+            yr_free(functions->name);
+            yr_free(functions);
+            functions = next_function;
+          }
+        }
+
+        if (functions != NULL)
+        {
           imported_dll->functions = functions;
           imported_dll->next = NULL;
 
@@ -2837,7 +2851,13 @@ define_function(imphash)
 
   digest_ascii[YR_MD5_LEN * 2] = '\0';
 
-  yr_hash_table_add(pe->hash_table, "imphash", NULL, digest_ascii);
+  if (yr_hash_table_add(pe->hash_table, "imphash", NULL, digest_ascii) !=
+      ERROR_SUCCESS)
+  {
+    // The digest could not be cached and nobody owns it.
+    yr_free(digest_ascii);
+    return ERROR_INSUFFICIENT_MEMORY;
+  }
 
   return_string(digest_ascii);
 }
